@@ -153,6 +153,7 @@ where
 pub mod verif {
     pub use super::config::SslConfig;
     pub use super::shadowsocks::verif::PayloadCodec as ShadowsocksPayloadCodec;
+    pub use super::shadowsocks::startup as shadowsocks_startup;
     pub use super::shadowsocks::verif::ServerContext as ShadowsocksServerContext;
     pub use super::template::message::InboundIn;
     pub use super::template::message::OutboundIn;
